@@ -298,6 +298,53 @@ Proof.
 Qed.
 End PermFit.
 
+(* ------------------------------------------------------------------ transform(X_train, Y_train): the Y scores *)
+Section YReplay.
+Context {F : Type} (Op : fops F).
+Hypothesis Rth : ring_theory (f0 Op) (f1 Op) (fadd Op) (fmul Op) (fsub Op) (fopp Op) (@eq F).
+Add Ring Fr3 : Rth.
+Variable inner : tensor F -> tensor F -> list (tensor F) * tensor F.
+Variable lstsq : list (list F) -> list F -> list F.
+(* contract of the solver: one coefficient per column *)
+Hypothesis Hlen : forall Tc u, length (lstsq Tc u) <= length Tc.
+
+Lemma ydeflate_prefix Y T1 T2 B q : length B <= length T1 -> ydeflate Op Y (T1 ++ T2) B q = ydeflate Op Y T1 B q.
+Proof.
+  intros HB. unfold ydeflate. apply tabulate_ext. intros idx Hi. cbv zeta. f_equal. f_equal.
+  rewrite app_length. unfold Regress.fsumn.
+  rewrite (bigsum_app F _ _ _ _ _ _ Rth (length T1) (length T2)).
+  rewrite (bigsum_zero F _ _ _ _ _ _ Rth (length T2)).
+  - rewrite (bigsum_ext F (f0 Op) (fadd Op) (length T1) _ (fun c => fmul Op (nth (nth 0 idx 0) (nth c T1 []) (f0 Op)) (nth c B (f0 Op)))).
+    + ring.
+    + intros c Hc. rewrite app_nth1 by exact Hc. reflexivity.
+  - intros j Hj. rewrite (nth_overflow B) by lia. ring.
+Qed.
+
+Lemma ytransform_replays k : forall X Y Tprev,
+  ytransform_cols Op Y (Tprev ++ map (c_score (F:=F)) (fit_loop Op inner lstsq k X Y Tprev))
+                  (map (c_B (F:=F)) (fit_loop Op inner lstsq k X Y Tprev)) (map (c_yload (F:=F)) (fit_loop Op inner lstsq k X Y Tprev))
+  = map (c_yscore (F:=F)) (fit_loop Op inner lstsq k X Y Tprev).
+Proof.
+  induction k as [|k IH]; intros X Y Tprev; cbn [fit_loop map]; [reflexivity|]. cbv zeta.
+  cbn [map ytransform_cols c_score c_B c_yload c_yscore]. f_equal.
+  set (ls := fst (inner X Y)). set (q := snd (inner X Y)).
+  set (t := scores Op X ls). set (u := yscore Op Y q). set (B := lstsq (Tprev ++ [t]) u).
+  set (rest := fit_loop Op inner lstsq k (deflate Op X ls t) (ydeflate Op Y (Tprev ++ [t]) B q) (Tprev ++ [t])).
+  change (t :: map (c_score (F:=F)) rest) with ([t] ++ map (c_score (F:=F)) rest). rewrite app_assoc.
+  rewrite (ydeflate_prefix Y (Tprev ++ [t]) _ B q) by apply Hlen.
+  apply IH.
+Qed.
+
+(* transform(X_train, Y_train) returns the fitted Y scores as its second component *)
+Theorem fit_transform_Y_train ncomp X Y :
+  fit_transform_Y Op (fit Op inner lstsq ncomp X Y) X Y = map (c_yscore (F:=F)) (comps (fit Op inner lstsq ncomp X Y)).
+Proof.
+  unfold fit_transform_Y, loadings, fit. cbv zeta. cbn [X_mean_ Y_mean_ comps].
+  rewrite (transform_replays_fit Op inner lstsq).
+  exact (ytransform_replays ncomp _ _ []).
+Qed.
+End YReplay.
+
 (* ------------------------------------------------------------------ the iteration of the regressors' fit *)
 Section RegLoopP.
 Context {F : Type} {P : Type}.
